@@ -5,7 +5,9 @@
 // built-ins Throwable/Exception) and a program of the small language of
 // Model.Exc: markers, `throw new K`, `throw $e`, a host function that panics,
 // return / break / continue, a `for` loop with a constant trip count, a call
-// of a function whose body sits at the call site, try / catch* / finally.
+// of a function whose body sits at the call site, named functions g0, g1, …
+// that call themselves and each other with $n - 1 (re-entrant programs),
+// try / catch* / finally.
 // The program is rendered as ONE origami script whose blocks print markers
 // (T<i>; F<i>; C<i>.<k>:<class>:<site>; m<n>; R<v>;), run in-process on a
 // fresh VM, and the marker trace + the way the run ends are compared
